@@ -68,12 +68,13 @@ func (b *Broker) Pump(c *Conn) {
 // Consume takes the next complete client packet of c, updates the session and, when
 // respond is set, sends the reaction. It reports whether there was a packet.
 func (b *Broker) Consume(c *Conn, respond bool) bool {
+	// (taking the packet and answering it is one step: two pumps at once must not answer out of order)
+	b.mu.Lock()
+	defer b.mu.Unlock()
 	p, _ := c.NextUnconsumed()
 	if p == nil {
 		return false
 	}
-	b.mu.Lock()
-	defer b.mu.Unlock()
 	b.w.Rec.Emit(Ev{"e": "br", "c": c.id, "pk": Brief(p)})
 	if p.Bad != "" {
 		if respond {
